@@ -123,7 +123,12 @@ var fmfs = map[string]enum.FastMathFlag{"nnan": enum.FastMathFlagNNaN, "ninf": e
 	"arcp": enum.FastMathFlagARcp, "contract": enum.FastMathFlagContract, "afn": enum.FastMathFlagAFn, "reassoc": enum.FastMathFlagReassoc,
 	"fast": enum.FastMathFlagFast}
 var tails = map[string]enum.Tail{"tail": enum.TailTail, "notail": enum.TailNoTail, "musttail": enum.TailMustTail}
-var ccs = map[string]enum.CallingConv{"fastcc": enum.CallingConvFast, "coldcc": enum.CallingConvCold}
+var ccs = map[string]enum.CallingConv{"ccc": enum.CallingConvC, "fastcc": enum.CallingConvFast, "coldcc": enum.CallingConvCold,
+	"ghccc": enum.CallingConvGHC, "cc 11": enum.CallingConvHiPE, "webkit_jscc": enum.CallingConvWebKitJS, "anyregcc": enum.CallingConvAnyReg,
+	"preserve_mostcc": enum.CallingConvPreserveMost, "preserve_allcc": enum.CallingConvPreserveAll, "swiftcc": enum.CallingConvSwift,
+	"cxx_fast_tlscc": enum.CallingConvCXXFastTLS, "tailcc": enum.CallingConvTail, "cfguard_checkcc": enum.CallingConvCFGuardCheck,
+	"swifttailcc": enum.CallingConvSwiftTail, "x86_stdcallcc": enum.CallingConvX86StdCall, "spir_func": enum.CallingConvSPIRFunc,
+	"amdgpu_kernel": enum.CallingConvAMDGPUKernel, "cc 86": enum.CallingConvAVRBuiltin}
 
 func must[T any](m map[string]T, k, what string) T {
 	v, ok := m[k]
@@ -691,6 +696,13 @@ func BuildConst(k *Const, tc *TypeCtx, g Globals) constant.Constant {
 		x := constInt(k)
 		if k.Ty.W == 1 {
 			return constant.NewBool(x.Sign() != 0)
+		}
+		if !x.IsInt64() { // wide constants: the constructor that takes the decimal spelling
+			c, err := constant.NewIntFromString(tc.Type(k.Ty).(*types.IntType), x.String())
+			if err != nil {
+				panic(fmt.Sprintf("schema: constant.NewIntFromString(%s): %v", x.String(), err))
+			}
+			return c
 		}
 		return constant.NewInt(tc.Type(k.Ty).(*types.IntType), x.Int64())
 	case "fp":
